@@ -76,6 +76,11 @@ export const CONTEXTS = {
   iife: (J) => `const v0 = (function () { return ${J}; })();\nexport const t0 = () => v0;`,
   callArg: (J) => `const idf = (x) => x;\nexport const t0 = () => idf(${J});`,
   arrayElem: (J) => `const arr = [${J}];\nexport const t0 = () => arr[0];`,
+  // a hoisted function declaration whose parameter default needs the temporary, called by an EARLIER statement of the list
+  hoistedFnDefaultParam: (J) => `export function t0() {\n  const r = inner();\n  return r;\n  function inner(p = ${J}) { return p; }\n}`,
+  hoistedFnDefaultParamModule: (J) => `const v0 = inner();\nexport const t0 = () => v0;\nfunction inner(p = ${J}) { return p; }`,
+  hoistedFnBodyCalledEarlier: (J) => `export function t0() {\n  const r = inner();\n  return r;\n  function inner() { const q = ${J}; return q; }\n}`,
+  switchTwoClauses: (J) => `export function t0(k = 2) {\n  switch (k) { case 1: return ${J}; case 2: return ${J}; default: return ${J}; }\n}`,
   moduleLevelLet: (J) => `let v0;\nv0 = ${J};\nexport const t0 = () => v0;`,
   fnBodyInner: (J) => `export function t0() {\n  /*PRE*/\n  const r = ${J};\n  /*POST*/\n  return r;\n}`,
   arrowBlockInner: (J) => `export const t0 = () => {\n  /*PRE*/\n  const r = ${J};\n  /*POST*/\n  return r;\n};`,
